@@ -3437,8 +3437,10 @@ class Device(utils.CompositeEventEmitter):
         if scan_window < DEVICE_MIN_SCAN_WINDOW or scan_window > DEVICE_MAX_SCAN_WINDOW:
             raise InvalidArgumentError('scan_interval out of range')
 
-        # Reset the accumulators
+        # Reset the accumulators (reports may arrive before the commands below have
+        # completed, so the scan type must be known to the accumulators from now on)
         self.advertisement_accumulators = {}
+        self.scanning_is_passive = not active
 
         # Enable scanning
         if not legacy and self.supports_le_extended_advertising:
@@ -3510,7 +3512,6 @@ class Device(utils.CompositeEventEmitter):
                 )
             )
 
-        self.scanning_is_passive = not active
         self.scanning = True
 
     async def stop_scanning(self, legacy: bool = False) -> None:
